@@ -9,7 +9,7 @@ from common import Driver, DriverFailure
 
 LEVEL = "proof"
 MANIFEST = dict(
-    text="Lean 4 invariants over a transition system of GeckoAsyncUdpProtocol.get for any number of concurrent callers, proved for every reachable state by  Session 4: an arrival-order monitor (no later caller is transmitted while an earlier caller has not completed). The lock shape of get() is a theorem over its regenerated suspension skeleton (get_lock_shape: every transmission while the caller holds the lock, the lock taken once per call, for every trace). Also the multi-segment request (GeckoAsyncStructure.get): every attempt consumes retry budget in both gets (every_attempt_consumes_budget over the regenerated skeletons) and the partial-loss pattern (a middle segment lost every time, the final one arriving) is driven on the real code."
+    text="Lean 4 invariants over a transition system of GeckoAsyncUdpProtocol.get for any number of concurrent callers, proved for every reachable state by  Session 4: an arrival-order monitor (no later caller is transmitted while an earlier caller has not completed). The lock shape of get() is a theorem over its regenerated suspension skeleton (get_lock_shape: every transmission while the caller holds the lock, the lock taken once per call, for every trace). Also the multi-segment request (GeckoAsyncStructure.get): every attempt consumes retry budget in both gets (every_attempt_consumes_budget over the regenerated skeletons) and the partial-loss pattern (a middle segment lost every time, the final one arriving) is driven on the real code. The answering-pings gate is searched with the real ping loop against a spa that stops answering, after silences of 150 s to two days (a week in the thorough tier), on a virtual clock that also drives time.time and datetime.now."
          "induction over action sequences (all arrival times, wake-up orders, reply loss/delay patterns, stalls): at most one caller inside an exchange and it is the lock "
          "holder (at_most_one_in_flight), datagrams per call <= retry count with the waiting handler built at the latest transmission (sends_bounded), callers served in "
          "call order (fifo: acquired ++ parked = called), a reply is returned only by the caller's own poll finding it (reply_was_delivered); and, without event-loop stalls, "
@@ -290,44 +290,72 @@ def monitors(ctx, sc, res, fair, inp):
             ctx.violation("get-raised", inp, "get returns a handler or None", r[1])
 
 
-def search_gate(ctx):
-    """the gates on the REAL GeckoAsyncSpa: (a) a call made while not connected / pings stale sends nothing; (b) D12 scenario"""
+async def _gate_rig(loop):
+    """a real GeckoAsyncSpa on a fake transport whose peer answers pings (and nothing else) while `answering[0]`; the REAL ping loop
+    runs, so whether pings are fresh or stale is decided by the library's own bookkeeping - nothing is written into the spa object
+    beyond what `_connect` itself sets (protocol, connected flag, pack identity)"""
     from geckolib.async_spa import GeckoAsyncSpa
     from geckolib.async_tasks import AsyncTasks
     from geckolib.driver.async_udp_protocol import GeckoAsyncUdpProtocol
+
+    async def ev(*a, **k):
+        pass
+    desc = rig.Desc()
+    spa = GeckoAsyncSpa(b"IOSclient", desc, AsyncTasks(), ev)
+    proto = GeckoAsyncUdpProtocol(None, ADDR)
+    ft = vloop.FakeTransport(loop, proto)
+    proto.connection_made(ft)
+    spa._protocol = proto
+    spa._is_connected = True
+    spa.pack_type, spa.config_version, spa.log_version = 6, 1, 2
+    answering = [True]
+    orig = ft.sendto
+
+    def sendto(data, addr=None):
+        orig(data, addr)
+        if answering[0] and b"APING" in data:
+            sender = (ADDR[0], ADDR[1], desc.identifier, b"IOSclient")
+            loop.call_later(0.02, proto.datagram_received, b"APING\x00", sender)
+    ft.sendto = sendto
+    ping = asyncio.ensure_future(spa._ping_loop())
+    entry = {"async_press": lambda: spa.async_press(1), "_on_async_set_value": lambda: spa._on_async_set_value(10, 1, 5),
+             "async_get_watercare": spa.async_get_watercare, "async_set_watercare": lambda: spa.async_set_watercare(1),
+             "async_get_reminders": spa.async_get_reminders}
+    return spa, ft, answering, ping, entry
+
+
+_GATED_VERBS = (b"SPACK", b"GETWC", b"SETWC", b"REQRM")
+
+
+def search_gate(ctx):
+    """the gates on the REAL GeckoAsyncSpa: (a) a call made while not connected sends nothing; (b) D12 scenario"""
     import geckolib.config as cfg
     out = {}
 
     async def body(loop):
-        async def ev(*a, **k):
-            pass
-        spa = GeckoAsyncSpa(b"IOSclient", rig.Desc(), AsyncTasks(), ev)
-        proto = GeckoAsyncUdpProtocol(None, ADDR)
-        ft = vloop.FakeTransport(loop, proto)
-        proto.connection_made(ft)
-        spa._protocol = proto
-        spa.pack_type, spa.config_version, spa.log_version = 6, 1, 2
-        entry = {"async_press": lambda: spa.async_press(1), "_on_async_set_value": lambda: spa._on_async_set_value(10, 1, 5),
-                 "async_get_watercare": spa.async_get_watercare, "async_set_watercare": lambda: spa.async_set_watercare(1),
-                 "async_get_reminders": spa.async_get_reminders}
-        # (a) gated calls
-        for label, conn, fresh in (("disconnected", False, True), ("pings-stale", True, False)):
-            spa._is_connected = conn
-            spa._last_ping = loop.time() if fresh else loop.time() - 10 * cfg.GeckoConfig.PING_FREQUENCY_IN_SECONDS
-            for name, mk in entry.items():
-                n0 = len(ft.sent)
-                try:
-                    await asyncio.wait_for(mk(), 0.5)
-                except asyncio.TimeoutError:
-                    pass
-                except Exception as e:  # noqa
-                    out[f"gate:{label}:{name}"] = f"raised {type(e).__name__}"
-                    continue
-                out[f"gate:{label}:{name}"] = len(ft.sent) - n0
+        spa, ft, answering, ping, entry = await _gate_rig(loop)
+        await asyncio.sleep(100)
+        # (a) not connected (pings are being answered): nothing is transmitted
+        spa._is_connected = False
+        for name, mk in entry.items():
+            n0 = len(ft.sent)
+            try:
+                await asyncio.wait_for(mk(), 0.5)
+            except asyncio.TimeoutError:
+                pass
+            except Exception as e:  # noqa
+                out[f"gate:disconnected:{name}"] = f"raised {type(e).__name__}"
+                continue
+            out[f"gate:disconnected:{name}"] = len([x for x in ft.sent[n0:] if any(v in x[1] for v in _GATED_VERBS)])
+        ping.cancel()
+    vloop.run_virtual(body)
+
+    async def body_b(loop):
         # (b) check-then-wait: active timing table (a pump is running), a query hogs the lock, a command parks behind it
         cfg.GeckoConfig.PING_FREQUENCY_IN_SECONDS = 2
-        spa._is_connected = True
-        spa._last_ping = loop.time()
+        spa, ft, answering, ping, entry = await _gate_rig(loop)
+        await asyncio.sleep(10)
+        fresh = spa.is_responding_to_pings
         hog = asyncio.ensure_future(spa.async_get_reminders())
         await asyncio.sleep(0.2)
         n0 = len(ft.sent)
@@ -335,14 +363,14 @@ def search_gate(ctx):
         stale_send = None
         for _ in range(700):
             await asyncio.sleep(0.1)
-            new = [s for s in ft.sent[n0:] if b"SPACK" in s[1]]
+            new = [x for x in ft.sent[n0:] if b"SPACK" in x[1]]
             if new:
-                stale_send = (new[0][0], spa.is_responding_to_pings, spa.is_connected)
+                stale_send = (new[0][0], spa.is_responding_to_pings, spa.is_connected, fresh)
                 break
-        for t in (hog, cmd):
+        for t in (hog, cmd, ping):
             t.cancel()
         out["toctou"] = stale_send
-    vloop.run_virtual(body)
+    vloop.run_virtual(body_b)
     for k, v in out.items():
         ctx.count("evaluations")
         if k.startswith("gate:") and v != 0:
@@ -352,6 +380,54 @@ def search_gate(ctx):
                       "_on_async_set_value called while pings are fresh parks on the lock and transmits when it gets it"},
                       "no command datagram while not answering pings", {"sent_at_s": out["toctou"][0], "is_responding_to_pings": False})
     ctx.cov["gate_checks"] = out
+
+
+def search_gate_silence(ctx):
+    """the answering-pings gate over LONG silences, with nothing written into the spa object: the real ping loop runs against a spa
+    that answers for a while and then goes silent; the command / query entry points are tried at offsets from seconds to a week
+    (a whole number of days plus a little included) and must not transmit anything"""
+    from geckolib.async_spa import GeckoAsyncSpa
+    from geckolib.async_tasks import AsyncTasks
+    from geckolib.driver.async_udp_protocol import GeckoAsyncUdpProtocol
+    from geckolib.driver import GeckoPingProtocolHandler, GeckoPacketProtocolHandler
+    import geckolib.config as cfg
+    out = {}
+    offsets = [150, 3600, 86400.3, 86400 + 60, 2 * 86400 + 1.0] + ([7 * 86400 + 0.5] if not ctx.quick else [])
+
+    async def body(loop):
+        spa, ft, answering, ping, entry = await _gate_rig(loop)
+        await asyncio.sleep(200)                       # a few answered pings
+        out["answered_before_silence"] = spa.is_responding_to_pings
+        answering[0] = False
+        t_silent = loop.time()
+        verbs = _GATED_VERBS
+        for off in offsets:
+            await asyncio.sleep(max(0.0, t_silent + off - loop.time()))
+            for name, mk in entry.items():
+                n0 = len(ft.sent)
+                try:
+                    await asyncio.wait_for(mk(), 0.5)
+                except asyncio.TimeoutError:
+                    pass
+                except Exception as e:  # noqa
+                    out[f"silent:{off}:{name}"] = f"raised {type(e).__name__}: {e}"
+                    continue
+                sent = [d for _, d in [(x[0], x[1]) for x in ft.sent[n0:]] if any(v in d for v in verbs)]
+                out[f"silent:{off}:{name}"] = len(sent)
+        ping.cancel()
+    vloop.run_virtual(body)
+    if out.get("answered_before_silence") is not True:
+        ctx.violation("gate-silence:never-answering", {"scenario": "pings answered for 200 s"}, "is_responding_to_pings while pings are answered",
+                      out.get("answered_before_silence"))
+    for k, v in out.items():
+        if not k.startswith("silent:"):
+            continue
+        ctx.count("evaluations")
+        if v != 0:
+            _, off, name = k.split(":")
+            ctx.violation(f"gate-silence:{name}", {"kind": "gate-silence", "silent_for_s": float(off), "entry": name},
+                          "no command or query datagram while the spa has not answered a ping for that long", v)
+    ctx.cov["gate_silence_checks"] = {k: v for k, v in out.items() if k.startswith("silent:")}
 
 
 def search_struct_get(ctx):
@@ -429,6 +505,7 @@ def run(ctx):
             ctx.obligation_broken("correspondence:request-trace-not-accepted-by-model", {"line": all_lines[i], "verdict": o, "context": all_lines[max(0, i - 8):i + 1], "scenario": src})
         ctx.sample({"validator_summary": [o for o in out if o.startswith("end")][:3]})
     search_gate(ctx)
+    search_gate_silence(ctx)
     search_struct_get(ctx)
     ctx.cov["distinct_nontrivial"] = len(nontrivial)
     ctx.cov["rule"] = ("each run = 1..8 (thorough ..20) concurrent callers of the real protocol.get with seeded arrival times, retry in {1,2,3,10}, timeout in {0.35,1.05,4.05} s (+0.5 ms in the real handler, so that no floating-point tie on a whole millisecond decides a timeout; the model's strict > on whole ms is then exact), "
@@ -472,6 +549,8 @@ def replay(inp):
         monitors(ctx, sc, res, inp["fair"], inp)
     elif inp.get("kind") == "struct-get":
         search_struct_get(ctx)
+    elif inp.get("kind") == "gate-silence":
+        search_gate_silence(ctx)
     else:
         search_gate(ctx)
     return bool(ctx.violations), ctx.violations[0]["observed"] if ctx.violations else "ok"
